@@ -487,7 +487,7 @@ def segments_shard(rec, shard):
                     if C06.build_grammar(segs) is None:
                         continue
                     for conts in (['bytes'], ['list'], ['tuple', 'bytearray']):
-                        rec.run_tagged({'kind': 'segments', 'segs': segs, 'conts': conts,
+                        rec.check_tagged({'kind': 'segments', 'segs': segs, 'conts': conts,
                                         'drain_between': len(conts) == 2})
 
 
